@@ -489,6 +489,27 @@ func (p *producer) probesFor(g *maskkit.Gen, gram []maskkit.Path, max int) ([][]
 			base = append(base, q)
 		}
 	}
+	// integer keys a float64 cannot hold: the key and both neighbours are always asked
+	var musts [][]maskkit.QKey
+	mseen := map[string]bool{}
+	for _, q := range base {
+		for i, x := range q {
+			if x.Kind != "i" || (x.Int < 1<<53-2 && x.Int > -(1<<53-2)) {
+				continue
+			}
+			for _, dlt := range []int64{0, 1, -1} {
+				if (dlt > 0 && x.Int == 9223372036854775807) || (dlt < 0 && x.Int == -9223372036854775808) {
+					continue
+				}
+				q2 := append([]maskkit.QKey(nil), q...)
+				q2[i] = maskkit.QKey{Kind: "i", Int: x.Int + dlt}
+				if k := fmt.Sprint(q2); !mseen[k] && len(musts) < 24 {
+					mseen[k] = true
+					musts = append(musts, q2)
+				}
+			}
+		}
+	}
 	// below the root even when there are no paths
 	base = append(base, []maskkit.QKey{})
 	for _, q := range base {
@@ -532,6 +553,15 @@ func (p *producer) probesFor(g *maskkit.Gen, gram []maskkit.Path, max int) ([][]
 			probes[i], probes[j] = probes[j], probes[i]
 		}
 		probes = probes[:max]
+	}
+	if len(musts) > 0 {
+		var rest [][]maskkit.QKey
+		for _, q := range probes {
+			if !mseen[fmt.Sprint(q)] {
+				rest = append(rest, q)
+			}
+		}
+		probes = append(musts, rest...)
 	}
 	// GetPath probes: the paths themselves and single-key renderings of some probes
 	var gps []string
@@ -1067,7 +1097,8 @@ func (p *producer) randTree(depth int, root bool) *JT {
 				k.Str = []string{"a", "b", "", "*", "$", "q\"uote"}[r.Intn(6)]
 			default:
 				k.IsInt = true
-				k.Int = []int64{-1, 0, 1, 2, 63, 64, 65, 300, -70000, 2147483647, 2147483648, 9223372036854775807}[r.Intn(12)]
+				k.Int = []int64{-1, 0, 1, 2, 63, 64, 65, 300, -70000, 2147483647, 2147483648, 9223372036854775807, 9223372036854775806,
+					-9223372036854775808, -9223372036854775807, 9007199254740992, 9007199254740993, -9007199254740993, 4611686018427387905, 1234567890123456789}[r.Intn(20)]
 			}
 			// mostly the right kind of key for the parent type
 			if r.Chance(3, 4) {
@@ -1107,6 +1138,14 @@ func treeProbes(r *rng.R, t *JT) [][]maskkit.QKey {
 				key = maskkit.QKey{Kind: "f", Int: k.Int}
 			case k.IsInt:
 				key = maskkit.QKey{Kind: "i", Int: k.Int}
+				if k.Int > 1<<53-2 || k.Int < -(1<<53-2) {
+					for _, dlt := range []int64{1, -1} {
+						if (dlt > 0 && k.Int == 9223372036854775807) || (dlt < 0 && k.Int == -9223372036854775808) {
+							continue
+						}
+						out = append(out, append(append([]maskkit.QKey(nil), acc...), maskkit.QKey{Kind: "i", Int: k.Int + dlt}))
+					}
+				}
 			case k.Str == "*":
 				key = []maskkit.QKey{{Kind: "f", Int: 3}, {Kind: "i", Int: 3}, {Kind: "s", Str: "zz"}}[r.Intn(3)]
 			default:
@@ -1505,6 +1544,13 @@ func main() {
 		{basic, false, []maskkit.Path{P(N("li"), Idx(1, 2), N("x")), P(N("li"), Idx(3), N("y")), P(N("mi"), KI(1, 2)), P(N("ms"), KS("a", "b"), N("self"), N("x"))}},
 		{basic, true, []maskkit.Path{P(N("li"), Idx(1, 2), N("x")), P(N("li"), Idx(3), N("y")), P(N("mi"), KI(1, 2)), P(N("ms"), KS("a", "b"), N("self"), N("x"))}},
 		{basic, false, []maskkit.Path{P(N("ll"), Idx(0), Idx(1, 2)), P(N("ll"), Idx(1), StarI), P(N("mim"), KI(4294967296), KS("k"))}},
+		// integer keys and indices beyond 2^53 (a float64 cannot hold them), neighbours with different sub masks
+		{basic, false, []maskkit.Path{P(N("mi"), KI(9007199254740993), N("x")), P(N("mi"), KI(9007199254740992), N("y")), P(N("mi"), KI(1234567890123456789)),
+			P(N("mim"), KI(9223372036854775807), KS("k")), P(N("mim"), KI(9223372036854775806)), P(N("li"), Idx(4611686018427387905), N("x")), P(N("li"), Idx(4611686018427387904), N("y")),
+			P(N("st"), Idx(9007199254740993))}},
+		{basic, true, []maskkit.Path{P(N("mi"), KI(9007199254740993), N("x")), P(N("mi"), KI(9007199254740992), N("y")), P(N("mi"), KI(1234567890123456789)),
+			P(N("mim"), KI(9223372036854775807), KS("k")), P(N("mim"), KI(9223372036854775806)), P(N("li"), Idx(4611686018427387905), N("x")), P(N("li"), Idx(4611686018427387904), N("y")),
+			P(N("st"), Idx(9007199254740993))}},
 		// GetPath with a key set goes on with the mask of the last key
 		{basic, false, []maskkit.Path{P(N("li"), Idx(1), N("x")), P(N("li"), Idx(2), N("y")), P(N("mi"), KI(1), N("x")), P(N("mi"), KI(2), N("y")),
 			P(N("ms"), KS("a"), N("x")), P(N("ms"), KS("b"), N("y"))}},
@@ -1550,6 +1596,9 @@ func main() {
 		{Str: "$", Typ: "List", HasKids: true, Kids: []*JT{{IsInt: true, Int: 1, Typ: "Scalar"}}},
 		{Str: "$", Typ: "Struct", HasKids: true, Kids: []*JT{{IsInt: true, Int: -1, Typ: "Scalar"}, {IsInt: true, Int: 64, Typ: "Struct"}, {IsInt: true, Int: 63, Typ: "List", HasKids: true}}},
 		{Str: "$", Typ: "Struct", HasKids: true, Kids: []*JT{{IsInt: true, Int: 1, Typ: "Scalar"}, {Str: "*", Typ: "Struct"}, {IsInt: true, Int: 2, Typ: "Scalar"}}},
+		{Str: "$", Typ: "IntMap", HasKids: true, Kids: []*JT{{IsInt: true, Int: 9007199254740992, Typ: "Scalar"}, {IsInt: true, Int: 9007199254740993, Typ: "Struct", HasKids: true, Kids: []*JT{{IsInt: true, Int: 1, Typ: "Scalar"}}},
+			{IsInt: true, Int: -9223372036854775808, Typ: "Scalar"}, {IsInt: true, Int: -9223372036854775807, Typ: "List"}, {IsInt: true, Int: 9223372036854775807, Typ: "Scalar"}, {IsInt: true, Int: 9223372036854775806, Typ: "StrMap"}}},
+		{Str: "$", Typ: "List", Black: true, HasKids: true, Kids: []*JT{{IsInt: true, Int: 1234567890123456789, Typ: "Scalar", Black: true}, {IsInt: true, Int: 4611686018427387905, Typ: "Struct", Black: true, HasKids: true, Kids: []*JT{{IsInt: true, Int: 2, Typ: "Scalar", Black: true}}}}},
 		{Str: "$", Typ: "Invalid"},
 		{Str: "$", Typ: "Scalar", HasKids: true, Kids: []*JT{{IsInt: true, Int: 1, Typ: "Scalar"}}},
 		{Str: "$", Typ: "StrMap", Black: true, HasKids: true, Kids: []*JT{{Str: "a", Typ: "Struct", Black: true, HasKids: true, Kids: []*JT{{IsInt: true, Int: 1, Typ: "Scalar", Black: true}}}, {Str: "a", Typ: "List"}}},
